@@ -170,6 +170,14 @@ theorem cumsum_noskip_sticky_null (vs : List Val) (h : Val.nan ∈ vs) :
 count is kept in at least 32 bits -/
 theorem source_facts : Generated.Constants.guardCumulative = true ∧ 32 ≤ Generated.Constants.cumCountWidth := by decide
 
+/-- the cumulative loop of the current source has the shape the model `cumGo` stands for: one running row counter over
+the (chunked) values in order, the reducer is applied to the output at the group's previously written position and writes
+the current row, that position is recorded per group, a masked row copies the group's previous output -/
+theorem source_loop_shape :
+    Generated.Constants.cumUpdatesFromLastSeen = true ∧ Generated.Constants.cumLastSeenTracked = true ∧
+    Generated.Constants.cumMaskedPassThrough = true ∧ Generated.Constants.cumRowCounter = true ∧
+    Generated.Constants.cumRowsInOrder = true := by decide
+
 /-- non-vacuity: two interleaved groups, a null value, a null key, a masked row -/
 example : cumulativeReduce (Scalar.nansum .f) (.num 0)
     [⟨0, .num 1, true⟩, ⟨1, .num 5, true⟩, ⟨-1, .num 9, true⟩, ⟨0, .nan, true⟩, ⟨0, .num 7, false⟩, ⟨0, .num 2, true⟩]
